@@ -213,7 +213,81 @@ fn cmd_rbsp(args: &[&str], out: &mut Vec<String>) {
     let ops = args.get(3).copied().unwrap_or("");
     match &src {
         Src::Raw(b) => run_rbsp_ops(mk_byte_reader(&b[..], skip, max_fill), ops, out),
+        // header skipped and default window: through the accessor users call, Nal::rbsp_bytes()
+        Src::Nal { .. } if skip == 1 && max_fill == 0 => src.with_nal(|nal| run_rbsp_ops(nal.rbsp_bytes(), ops, out)),
         Src::Nal { .. } => src.with_nal(|nal| run_rbsp_ops(mk_byte_reader(nal.reader(), skip, max_fill), ops, out)),
+    }
+}
+
+/// The other std::io::Read entry points of a NAL reader must deliver what fill_buf/consume delivered (`want`, ending
+/// with `end`): read_exact in pieces of exactly the buffered chunk, read_exact in pieces of `piece` bytes, read_to_end.
+fn alt_paths<R: BufRead + Clone>(r: &R, want: &[u8], end: &str, piece: usize) -> String {
+    let mut bad: Vec<String> = Vec::new();
+    // read_exact of exactly what fill_buf shows
+    {
+        let mut c = r.clone();
+        let mut got = Vec::new();
+        let e = loop {
+            let n = match c.fill_buf() {
+                Ok(b) if b.is_empty() => break "Eof".to_string(),
+                Ok(b) => b.len(),
+                Err(e) => break iokind(&e),
+            };
+            let mut buf = vec![0u8; n];
+            match c.read_exact(&mut buf) {
+                Ok(()) => got.extend_from_slice(&buf),
+                Err(e) => break format!("x:{}", iokind(&e)),
+            }
+        };
+        if got != want || e != end {
+            bad.push(format!("xchunk:{}!{}", hex(&got), e));
+        }
+    }
+    // read_exact in pieces of `piece` bytes while that many remain, then the rest
+    {
+        let mut c = r.clone();
+        let mut got = Vec::new();
+        let mut err = None;
+        while got.len() < want.len() {
+            let n = std::cmp::min(std::cmp::max(piece, 1), want.len() - got.len());
+            let mut buf = vec![0u8; n];
+            match c.read_exact(&mut buf) {
+                Ok(()) => got.extend_from_slice(&buf),
+                Err(e) => {
+                    err = Some(iokind(&e));
+                    break;
+                }
+            }
+        }
+        let mut one = [0u8; 1];
+        let e = match err {
+            Some(e) => format!("x:{}", e),
+            None => match c.read(&mut one) {
+                Ok(0) => "Eof".to_string(),
+                Ok(_) => "more".to_string(),
+                Err(e) => iokind(&e),
+            },
+        };
+        if got != want || e != end {
+            bad.push(format!("xpiece:{}!{}", hex(&got), e));
+        }
+    }
+    // read_to_end
+    {
+        let mut c = r.clone();
+        let mut got = Vec::new();
+        let e = match c.read_to_end(&mut got) {
+            Ok(_) => "Eof".to_string(),
+            Err(e) => iokind(&e),
+        };
+        if got != want || e != end {
+            bad.push(format!("toend:{}!{}", hex(&got), e));
+        }
+    }
+    if bad.is_empty() {
+        "alt=same".to_string()
+    } else {
+        format!("alt=DIFF({})", bad.join(";"))
     }
 }
 
@@ -262,6 +336,7 @@ fn cmd_refnal(args: &[&str], out: &mut Vec<String>) {
         }
         // drain every reader (clones first) so that independence of clones is observable
         while let Some(mut r) = stack.pop() {
+            let before = r.clone();
             let mut acc = Vec::new();
             let mut ends = Vec::new();
             // ask for the end three times: it must be stable
@@ -285,6 +360,10 @@ fn cmd_refnal(args: &[&str], out: &mut Vec<String>) {
                 Err(e) => iokind(&e),
             };
             out.push(format!("d:{}!{}!{}", hex(&acc), ends.join("."), rd));
+            let alt = alt_paths(&before, &acc, &ends[0], 1 + acc.len() % 5);
+            if alt != "alt=same" {
+                out.push(alt);
+            }
         }
     });
 }
@@ -325,8 +404,15 @@ fn cmd_accum(args: &[&str], out: &mut Vec<String>) {
                     Err(e) => break iokind(&e),
                 }
             };
-            let same = bytes2 == bytes && end2 == end;
-            calls.push(format!("{};{};{};{};{}", hex(&bytes), nal.is_complete() as u8, end, hdr, if same { "rd=same".to_string() } else { format!("rd={}!{}", hex(&bytes2), end2) }));
+            let alt = alt_paths(&nal.reader(), &bytes, &end, read_size);
+            let rd = if bytes2 != bytes || end2 != end {
+                format!("rd={}!{}", hex(&bytes2), end2)
+            } else if alt != "alt=same" {
+                format!("rd={}", alt)
+            } else {
+                "rd=same".to_string()
+            };
+            calls.push(format!("{};{};{};{};{}", hex(&bytes), nal.is_complete() as u8, end, hdr, rd));
             let d = policy.get(k).copied().unwrap_or(b'B');
             k += 1;
             if d == b'I' {
@@ -345,6 +431,82 @@ fn cmd_accum(args: &[&str], out: &mut Vec<String>) {
     out.append(&mut calls);
 }
 
+pub fn crc32(data: &[u8]) -> u32 {
+    let mut table = [0u32; 256];
+    for i in 0..256u32 {
+        let mut c = i;
+        for _ in 0..8 {
+            c = if c & 1 != 0 { 0xEDB8_8320 ^ (c >> 1) } else { c >> 1 };
+        }
+        table[i as usize] = c;
+    }
+    let mut c = 0xFFFF_FFFFu32;
+    for &b in data {
+        c = table[((c ^ u32::from(b)) & 0xff) as usize] ^ (c >> 8);
+    }
+    c ^ 0xFFFF_FFFF
+}
+
+/// byte i of the synthetic stream used by the *big commands (period 251, never 0: no start codes / escapes)
+pub fn synth(i: usize) -> u8 {
+    (((i % 251) * 7 + 3) % 255 + 1) as u8
+}
+
+/// accumbig <size:end,size/size:end,...> <policy> : fragments of synthetic bytes (sizes only on the command line); each
+/// handler invocation is reported as L<len>:<crc32>;complete;end;hdr;rd
+fn cmd_accumbig(args: &[&str], out: &mut Vec<String>) {
+    let policy: Vec<u8> = args.get(1).copied().unwrap_or("").bytes().collect();
+    let mut calls: Vec<String> = Vec::new();
+    let mut k = 0usize;
+    {
+        let mut acc = NalAccumulator::new(|nal: RefNal<'_>| {
+            let mut r = nal.reader();
+            let mut bytes = Vec::new();
+            let end = loop {
+                match r.fill_buf() {
+                    Ok(b) if b.is_empty() => break "Eof".to_string(),
+                    Ok(b) => {
+                        bytes.extend_from_slice(b);
+                        let n = b.len();
+                        r.consume(n);
+                    }
+                    Err(e) => break iokind(&e),
+                }
+            };
+            let hdr = match nal.header() {
+                Ok(h) => format!("{}.{}", h.nal_ref_idc(), h.nal_unit_type().id()),
+                Err(_) => "err".to_string(),
+            };
+            let alt = alt_paths(&nal.reader(), &bytes, &end, 65536);
+            calls.push(format!("L{}:{:08x};{};{};{};rd={}", bytes.len(), crc32(&bytes), nal.is_complete() as u8, end, hdr, if alt == "alt=same" { "same" } else { "DIFF" }));
+            let d = policy.get(k).copied().unwrap_or(b'B');
+            k += 1;
+            if d == b'I' {
+                NalInterest::Ignore
+            } else {
+                NalInterest::Buffer
+            }
+        });
+        let mut pos = 0usize;
+        for f in args[0].split(',').filter(|s| !s.is_empty()) {
+            let (sizes, end) = f.split_once(':').unwrap();
+            let bufs: Vec<Vec<u8>> = sizes
+                .split('/')
+                .filter(|s| !s.is_empty())
+                .map(|n| {
+                    let n: usize = n.parse().unwrap();
+                    let v: Vec<u8> = (pos..pos + n).map(synth).collect();
+                    pos += n;
+                    v
+                })
+                .collect();
+            let refs: Vec<&[u8]> = bufs.iter().map(|b| &b[..]).collect();
+            acc.nal_fragment(&refs, end == "1");
+        }
+    }
+    out.append(&mut calls);
+}
+
 fn dispatch(cmd: &str, args: &[&str], out: &mut Vec<String>) {
     match cmd {
         "bits" => cmd_bits(args, out),
@@ -353,6 +515,7 @@ fn dispatch(cmd: &str, args: &[&str], out: &mut Vec<String>) {
         "decode_nal" => cmd_decode_nal(args, out),
         "refnal" => cmd_refnal(args, out),
         "accum" => cmd_accum(args, out),
+        "accumbig" => cmd_accumbig(args, out),
         _ => syntax::dispatch(cmd, args, out),
     }
 }
